@@ -142,6 +142,16 @@ let respond (line : String.t) : String.t =
     (match subs_of_term (parse_term s) with
      | None -> "nosubs"
      | Some s -> show_keys (subst_key s (parse_term bounded) (parse_term trait_)))
+  | [ "tb"; a; b ] ->
+    let a = parse_term a and b = parse_term b in
+    let strs l = show_term (mk "Strs" "" (List.map (fun x -> Node ({ lk = to_coq "S"; ld = x }, [])) l)) in
+    String.concat "\t" [ bool_s (tok_ok a && tok_ok b); bool_s (tb_eqb a b);
+                         strs (tb_hash_input a); strs (tb_hash_input b);
+                         strs (tb_tokens a); strs (tb_tokens b) ]
+  | [ "tokens"; a ] ->
+    let a = parse_term a in
+    let strs l = show_term (mk "Strs" "" (List.map (fun x -> Node ({ lk = to_coq "S"; ld = x }, [])) l)) in
+    bool_s (tok_ok a) ^ "\t" ^ strs (tokens a)
   | [ "wf"; s ] ->
     (match subs_of_term (parse_term s) with
      | None -> "nosubs"
